@@ -387,6 +387,50 @@ def special_population_case(case):
     return n
 
 
+def crowd_case(case):
+    """A population of more than a thousand agents: every template x tag filter is the exact filter in joining order;
+    64 seeded picks per filter stay inside it; a shuffle is a permutation of it."""
+    from mc.engine.seams import reset_library
+    reset_library()
+    n = case['n']
+    m = new_model(seed=case.get('seed', 0))
+    env = m.environment
+    agents = []
+    for i in range(n):
+        a = Core.Agent(f'c{i}', m, tag=i % 3)
+        if i % 2 == 0:
+            a.add_component(X(a, m))
+        if i % 5 == 0:
+            a.add_component(Y(a, m))
+        agents.append(a)
+        env.add_agent(a)
+    for i in range(1, n, 11):
+        env.remove_agent(f'c{i}')
+    res = [a for i, a in enumerate(agents) if not (i % 11 == 1)]
+    q = 0
+    for tmpl in ((), ('X',), ('Y',), ('X', 'Y'), ('Y', 'X'), ('Z',), ('X', 'X')):
+        targs = [TYPES[t] for t in tmpl]
+        for tag in (None, 0, 2, 'np1', 9):
+            kw = {} if tag is None else {'tag': tag_value(tag)}
+            exp = [a for a in res if all(T in a.components for T in targs) and (tag is None or a.tag == tag_value(tag))]
+            got = env.get_agents(*targs, **kw)
+            q += 1
+            if not isinstance(got, list) or len(got) != len(exp) or any(g is not e for g, e in zip(got, exp)):
+                raise Violation(f'{n} agents, template {list(tmpl)} tag {tag}: get_agents differs from the exact filter in '
+                                f'joining order', expected=[a.id for a in exp[:6]], observed=[getattr(a, 'id', a) for a in got[:6]])
+            ids = {id(a) for a in exp}
+            for _ in range(64):
+                r = env.get_random_agent(*targs, **kw)
+                if (r is None) != (not exp) or (r is not None and id(r) not in ids):
+                    raise Violation(f'{n} agents, template {list(tmpl)} tag {tag}: get_random_agent outside the filter',
+                                    observed=getattr(r, 'id', None))
+            s = env.shuffle(*targs, **kw)
+            if len(s) != len(exp) or {id(a) for a in s} != ids:
+                raise Violation(f'{n} agents, template {list(tmpl)} tag {tag}: shuffle is not a permutation of the filter',
+                                expected=len(exp), observed=len(s))
+    return q * 66
+
+
 def in_system_case(case):
     """Queries made from inside one System.execute(): the same query is repeated after an agent was re-tagged, after a
     component was attached to / detached from a resident, and after an agent joined - each answer reflects the
@@ -558,6 +602,15 @@ def run(ctx):
             ctx.report(case, v)
             return
     ctx.leg('special_population', cases=3)
+    case = {'leg': 'crowd', 'n': 130 if ctx.small else 1300, 'seed': ctx.seed}
+    ctx.traces += 1
+    try:
+        ctx.transitions += hbfs._guard(crowd_case, case)
+        ctx.outcome(('crowd', case['n']))
+    except Violation as v:
+        ctx.report(case, v)
+        return
+    ctx.leg('crowd', note='1300 agents, 7 templates x 5 tag filters, 64 seeded picks each (membership only)')
     for p in POOLS:
         case = {'leg': 'in_system', 'pool': p}
         ctx.traces += 1
@@ -593,6 +646,9 @@ def explore_pool(ctx, p):
 def replay(case):
     if case['leg'] == 'special_population':
         hbfs._guard(special_population_case, case)
+        return
+    if case['leg'] == 'crowd':
+        hbfs._guard(crowd_case, case)
         return
     if case['leg'] == 'class_churn':
         hbfs._guard(class_churn_case, case)
